@@ -233,6 +233,41 @@ def check_props(spec):
             "error": ("unexpected axioms: " + ", ".join(unexpected)) if unexpected else ""}
 
 
+def run_coqchk(spec):
+    """Thorough tier: re-check the compiled closure of props/Cxx.vo with the independent
+    checker; cached by the content hash of the closure's sources."""
+    order = closure(spec_targets(spec))
+    h = hashlib.sha1()
+    for rel in order:
+        h.update(rel.encode())
+        h.update(open(os.path.join(COQ, rel), "rb").read())
+    cdir = os.path.join(BUILD, "coqchk")
+    os.makedirs(cdir, exist_ok=True)
+    cf_ = os.path.join(cdir, "%s_%s.txt" % (spec["id"], h.hexdigest()[:16]))
+    if os.path.exists(cf_):
+        out = open(cf_).read()
+    else:
+        lock = open(os.path.join(BUILD, ".coqlock"), "w")
+        fcntl.flock(lock, fcntl.LOCK_SH)
+        try:
+            r = subprocess.run(["timeout", "7200", "coqchk", "-silent", "-o"] + QFLAGS + ["VProps." + spec["id"]],
+                               cwd=COQ, stdout=subprocess.PIPE, stderr=subprocess.STDOUT, text=True)
+        finally:
+            fcntl.flock(lock, fcntl.LOCK_UN)
+            lock.close()
+        out = r.stdout
+        if r.returncode != 0:
+            return {"ok": False, "output": out[-3000:]}
+        open(cf_, "w").write(out)
+    m = re.search(r"\* Axioms:(.*?)\n\s*\n\* ", out, re.S)
+    axioms = []
+    if m and "<none>" not in m.group(1):
+        axioms = [x.strip() for x in m.group(1).strip().splitlines() if x.strip()]
+    bad = [k for k in ("type-in-type", "unsafe (co)fixpoints", "positivity is assumed")
+           if not re.search(re.escape(k) + r":\s*<none>", out)]
+    return {"ok": not bad, "axioms": axioms, "output": out[-1500:], "unsafe": bad}
+
+
 # ---------------------------------------------------------------- Go driver
 
 def pkg_name_of(dirpath):
@@ -539,6 +574,11 @@ def main():
     props = check_props(spec)
     violations = []   # (replay_path, suffix, description)
     known_lines = []
+    chk = None
+    if tier == "thorough" and props["ok"] and not a.replay:
+        chk = run_coqchk(spec)
+        if not chk["ok"]:
+            props = dict(props, ok=False, error="coqchk rejects the compiled development: " + chk["output"][-500:])
 
     if not props["ok"]:
         # a theorem of this property no longer checks (cannot be caused by /repo; kept for the contract)
@@ -705,6 +745,7 @@ def main():
             "op_histogram": hist, "tag_histogram": tags,
             "total_ops": sum(len(c["ops"]) for c in cases),
             "driver_cmd": res["cmd"], "driver_wall_s": round(res["wall_s"], 2),
+            "coqchk": ({"ran": True, "axioms": chk.get("axioms", []), "ok": chk["ok"]} if chk else {"ran": False}),
         },
         "assumptions": spec.get("assumptions", []),
         "wall_s": round(wall, 2), "violations": len(violations),
